@@ -44,12 +44,18 @@ func (c *PublishHeader) WriteHTMLTo(w io.Writer) (int64, error) {
 	items := []*core.NavItem{}
 
 	if c.options.ShowIndividuals {
+		// There are no index letters when there are no visible individuals.
+		firstLetter := symbolLetter
+		if len(c.indexLetters) > 0 {
+			firstLetter = c.indexLetters[0]
+		}
+
 		badge := core.NewCountBadge(len(c.document.Individuals()))
 		title := core.NewComponents(core.NewText("Individuals "), badge)
 		item := core.NewNavItem(
 			title,
 			c.selectedTab == selectedIndividualsTab,
-			PageIndividuals(c.indexLetters[0]),
+			PageIndividuals(firstLetter),
 		)
 		items = append(items, item)
 	}
